@@ -108,7 +108,7 @@ POOL = [req(rid=1), req(rid="1"), req(rid=1.0), req(rid=True), req(rid="True"), 
         req(roles=["admin", "user"]), req(roles=["user", "admin"]), req(roles=["admin"]), req(sid="v"),
         req(rattrs={"level": 1}), req(rattrs={"level": "1"}), req(rattrs={"level": 1.0}), req(rattrs={"level": True}),
         req(ctx={"n": 1}), req(ctx={"n": "1"}), req(ctx={"n": 1, "mfa": True}), req(ctx={"mfa": True, "n": 1}), req(ctx={"mfa": 1}),
-        req(ctx={"mfa": False}), req(sid="é"), req(sid="é"), req(ctx={"a": {"b": 1}}), req(ctx={"a": {"b": [1]}}), req(ctx={"a.b": 1})]
+        req(ctx={"mfa": False}), req(sid="é"), req(sid="é"), req(ctx={"a": {"b": 1}}), req(ctx={"a": {"b": [1]}}), req(ctx={"a.b": 1}), req(roles=["user"], rid=2), req(roles=["v"], rid=2)]
 
 
 def decision(g: Guard, r: dict):
@@ -340,8 +340,9 @@ ALPHABET = [("eval", 0, 0), ("eval", 0, 1), ("eval", 0, 17), ("eval", 1, 0), ("e
             ("clear", 0), ("clear", 1), ("tick", 3), ("tick", 10)]
 
 
-def run_history(hist, cap, ttl, kind, shared_strict):
-    """returns None if transparent, else a description of the first difference"""
+def run_history(hist, cap, ttl, kind, shared_strict, resolver_second: bool = False):
+    """returns None if transparent, else a description of the first difference.  `resolver_second`: both engines hold policy A, the
+    second one expands roles through a StaticRoleResolver (user → admin) — same requests, other effective roles, one shared cache"""
     clock = Clock()
     saved = rcache.time
     rcache.time = clock
@@ -352,15 +353,17 @@ def run_history(hist, cap, ttl, kind, shared_strict):
             cache = DictCache()
         else:
             cache = CopyingCache()
-        cur = [copy.deepcopy(POL_A), copy.deepcopy(POL_B)]
+        cur = [copy.deepcopy(POL_A), copy.deepcopy(POL_A if resolver_second else POL_B)]
         strict = [False, shared_strict]
-        cached = [Guard(cur[i], cache=cache, cache_ttl=ttl, strict_types=strict[i]) for i in range(2)]
+        from rbacx.core.roles import StaticRoleResolver
+        res = [None, StaticRoleResolver({"user": ["admin"], "v": ["user"]}) if resolver_second else None]
+        cached = [Guard(cur[i], cache=cache, cache_ttl=ttl, strict_types=strict[i], role_resolver=res[i]) for i in range(2)]
         for step, op in enumerate(hist):
             if op[0] == "eval":
                 _, e, ri = op
                 r = POOL[ri % len(POOL)]
                 got = decision(cached[e], r)
-                want = decision(Guard(copy.deepcopy(cur[e]), strict_types=strict[e]), r)
+                want = decision(Guard(copy.deepcopy(cur[e]), strict_types=strict[e], role_resolver=res[e]), r)
                 if got != want:
                     return {"step": step, "op": op, "request": r, "cached": got, "uncached": want}
             elif op[0] == "set":
@@ -395,6 +398,20 @@ def run_cases(run: lib.Run, scale: int = 1):
                 if bad:
                     run.spec_failures.append({"part": "history", "history": hist, "maxsize": cap, "ttl": ttl, "cache": kind, **bad,
                                               "spec": "a cached engine returned a decision different from the uncached engine holding the same policy"})
+    # two engines, same policy, one of them with a role resolver, one shared cache: every history of length ≤ 3 over a small alphabet
+    user = next(i for i, q in enumerate(POOL) if q["roles"] == ["user"])      # rid=2: rule a2 (admin role) decides
+    small = [("eval", 0, user), ("eval", 1, user), ("eval", 0, 7), ("eval", 1, 7), ("clear", 0), ("tick", 10)]
+    for L in range(1, 4):
+        for hist in itertools.product(small, repeat=L):
+            if sum(1 for o in hist if o[0] == "eval") < 2:
+                continue
+            for cap, ttl, kind in ((2048, None, "lru"), (1, 5, "lru"), (0, 5, "dict")):
+                bad = run_history(hist, cap, ttl, kind, False, resolver_second=True)
+                run.case([hist, cap, ttl, kind, "resolver"], True)
+                run.count("hist:resolver-on-second-engine")
+                if bad:
+                    run.spec_failures.append({"part": "history", "history": hist, "maxsize": cap, "ttl": ttl, "cache": kind, "second_engine_has_role_resolver": True,
+                                              **bad, "spec": "a cached engine returned a decision different from the uncached engine holding the same policy"})
     r = random.Random(run.seed * 8191 + 8)
     for k in range((150 if quick else 1500) * scale):
         L = r.randrange(5, 60)
@@ -410,11 +427,12 @@ def run_cases(run: lib.Run, scale: int = 1):
             else:
                 hist.append(("tick", r.choice([1, 4, 5, 6, 300])))
         cap, ttl, kind = gen.choice(r, configs)
-        bad = run_history(hist, cap, ttl, kind, r.random() < 0.5)
-        run.case([hist, cap, ttl, kind], True, {"history": hist[:12], "maxsize": cap, "ttl": ttl, "cache": kind} if k < 2 else None)
+        with_res = r.random() < 0.3
+        bad = run_history(hist, cap, ttl, kind, r.random() < 0.5, resolver_second=with_res)
+        run.case([hist, cap, ttl, kind, with_res], True, {"history": hist[:12], "maxsize": cap, "ttl": ttl, "cache": kind} if k < 2 else None)
         run.count(f"random:{kind}")
         if bad:
-            hist = lib.shrink_list(hist, lambda h: run_history(h, cap, ttl, kind, False) is not None or run_history(h, cap, ttl, kind, True) is not None, 150)
+            hist = lib.shrink_list(hist, lambda h: run_history(h, cap, ttl, kind, False, with_res) is not None or run_history(h, cap, ttl, kind, True, with_res) is not None, 150)
             run.spec_failures.append({"part": "history", "history": hist, "maxsize": cap, "ttl": ttl, "cache": kind, **bad,
                                       "spec": "a cached engine returned a decision different from the uncached engine holding the same policy"})
 
